@@ -24,7 +24,7 @@ size_t G; W P[ROWS]; W X0;
 #define DIDX(i) (__CPROVER_assert((size_t)(i) != G || (size_t)(i) < data__size, "C12.storage index within data_"), (i))
 size_t sample_node; W sample_x;
 W nondet_W(void);
-static W SCALE(double r, W total) { W x = X0; return x; }
+static W SCALE(W r, W total) { W x = X0; return x; }
 #define RS(r) (tree_rowsize[(r) + 1] == (tree_rowsize[r] + 1) / 2)
 #define BIG (1ULL << 48)
 /* level r (0 <= r < top): the ancestor ANC(r+1) of G is in its row, is the sum of its children, children are bounded; P[r] from P[r+1] */
@@ -33,9 +33,9 @@ static W SCALE(double r, W total) { W x = X0; return x; }
                                               : tree_[(r) + 1][ANC((r) + 1)] == tree_[r][2 * ANC((r) + 1)]) && \
     P[r] == P[(r) + 1] + ((ANC(r) & 1u) ? tree_[r][ANC(r) - 1] : 0)))
 #define CHAIN (LVL(0) && LVL(1) && LVL(2) && LVL(3) && LVL(4) && LVL(5) && LVL(6) && LVL(7) && LVL(8) && LVL(9) && LVL(10) && LVL(11) && LVL(12) && LVL(13) && LVL(14) && LVL(15))
-KeyT pdf_sample(double r)
+KeyT pdf_sample(W r)     /* r in {0, 1}: the scaled value r * total is the ghost X0 (any exact value in [0, total]); no floating point in this unit */
 __CPROVER_requires(tree__size >= 1 && tree__size <= ROWS && tree_rowsize[0] == data__size && data__size >= 1 && data__size <= 65535 && tree_rowsize[tree__size - 1] == 1 && !EXC_)
-__CPROVER_requires(r >= 0.0 && r <= 1.0 && G < 65536 && ANC(tree__size - 1) == 0 && P[tree__size - 1] == 0 && tree_[tree__size - 1][0] < BIG && X0 <= tree_[tree__size - 1][0])
+__CPROVER_requires(r <= 1 && G < 65536 && ANC(tree__size - 1) == 0 && P[tree__size - 1] == 0 && tree_[tree__size - 1][0] < BIG && X0 <= tree_[tree__size - 1][0])
 __CPROVER_requires(CHAIN)
 __CPROVER_assigns(sample_node, sample_x)
 __CPROVER_ensures(!EXC_)
@@ -44,6 +44,6 @@ __CPROVER_ensures(sample_node == G ==> (X0 > 0 ==> tree_[0][G] > 0))            
 /*@BODY sample@*/
 void harness(void)
 {
-    double r; pdf_sample(r);
+    W r; pdf_sample(r);
     if (sample_node == G && G > 2) __CPROVER_assert(0, "REACH returned the ghost leaf");
 }
